@@ -1,6 +1,13 @@
 (** Property C09 -- later transactions never change results already computed for earlier periods. *)
-From RP2V Require Import Base.Prelude Base.Time Base.Dec Model.Types Model.Generated Model.Matcher Model.MatchSpec Model.MatchWf
-  Proofs.MatcherProps.
+(** Matcher layer: [run_matcher] (Model/Matcher.v).  Aggregation layer: [compute] / [compute_tax] (Model/Computed.v,
+    Model/ComputedSpec.v); vocabulary [trunc_txs], [trunc_fracs], [restrict], [extends_after], [lots_precede_events]:
+    Model/StabilitySpec.v.  Proofs: Proofs/SpecPrefix.v, Proofs/MatcherProps.v, Proofs/C09Proofs.v; examples and the F9
+    witness: Proofs/C09Examples.v. *)
+From Coq Require Import List ZArith Bool Lia.
+From RP2V Require Import Base.Prelude Base.Time Base.Dec Model.Types Model.Generated Model.Txn Model.Matcher Model.MatchSpec Model.MatchWf
+  Model.Pipeline Model.Computed Model.ComputedSpec Model.StabilitySpec
+  Proofs.MatcherProps Proofs.ComputedProofs Proofs.C09Proofs Proofs.C09Examples.
+Import ListNotations.
 Open Scope Z_scope.
 
 (** the matching computed by the matcher (as the code has it) for the history up to T is a prefix of
@@ -20,4 +27,124 @@ Theorem C09_prefix_stable : forall lots lots2 sched evs evs2 T,
   end.
 Proof. exact m_prefix_stable. Qed.
 
+(** * "a run limited by to-date T reports the same figures as a run on the history truncated at T"
+    [trunc_txs D t] = the transactions of [t] dated (local date) up to [D]; [trunc_fracs D evs fs] = the fractions whose
+    event is dated up to [D]; [restrict D t cd] = [cd] with its internal, unreported tables (unfiltered detail table and
+    running sums) cut at [D] and EVERY reported field unchanged (C09_reported_fields_untouched).
+    Needs time-sorted lists (what [build] produces) and local dates monotone in time (F9; see C09_to_date_refuted), and that
+    lots are acquired no later than the events that consume them (true for the matcher's output: second theorem). *)
+Theorem C09_to_date_equals_truncated_history : forall period from_day D D' allow exs hos t fs evs gls,
+  time_sorted t -> dates_monotone t -> taxable_events t = Ok evs -> all_fractions t fs = Some gls ->
+  lots_precede_events gls -> D <= D' ->
+  compute period from_day D' allow exs hos (trunc_txs D t) (trunc_fracs D evs fs) =
+  match compute period from_day D allow exs hos t fs with Ok cd => Ok (restrict D t cd) | Err e => Err e end.
+Proof. exact to_date_equiv. Qed.
+
+(** the whole computation: the matcher on the truncated history yields the truncated fractions, hence (D' = no to-date);
+    the truncated history must still contain an acquisition (otherwise RP2 rejects the sheet: empty IN table), its
+    well-formedness then follows from that of the full history (C09_truncated_history_wellformed) *)
+Theorem C09_to_date_equals_truncated_history_end_to_end : forall period from_day D D' allow exs hos sched t evs cd,
+  time_sorted t -> dates_monotone t -> taxable_events t = Ok evs ->
+  wf (t_ins t) sched (map event_of evs) -> t_ins (trunc_txs D t) <> [] -> D <= D' ->
+  compute_tax period from_day D allow exs hos sched t = Ok cd ->
+  compute_tax period from_day D' allow exs hos sched (trunc_txs D t) = Ok (restrict D t cd).
+Proof. exact compute_tax_to_date_equiv_built. Qed.
+Theorem C09_truncated_history_wellformed : forall D sched t evs,
+  time_sorted t -> dates_monotone t -> taxable_events t = Ok evs ->
+  wf (t_ins t) sched (map event_of evs) -> t_ins (trunc_txs D t) <> [] ->
+  wf (t_ins (trunc_txs D t)) sched (map event_of (filter (fun x => txn_day x <=? D) evs)).
+Proof. exact wf_trunc. Qed.
+
+Theorem C09_truncated_matching : forall D sched t evs,
+  time_sorted t -> dates_monotone t -> taxable_events t = Ok evs ->
+  wf (t_ins t) sched (map event_of evs) ->
+  wf (t_ins (trunc_txs D t)) sched (map event_of (filter (fun x => txn_day x <=? D) evs)) ->
+  forall fs, fractions_of gen_always_repush sched t = Ok fs ->
+    fractions_of gen_always_repush sched (trunc_txs D t) = Ok (trunc_fracs D evs fs).
+Proof. exact fractions_of_trunc. Qed.
+
+(** views, labels, yearly list, balances, price per unit, sold percentages are the same field by field *)
+Theorem C09_reported_fields_untouched : forall D t cd,
+  let cd' := restrict D t cd in
+  cd_events cd' = cd_events cd /\ cd_gls cd' = cd_gls cd /\ cd_evfrac cd' = cd_evfrac cd /\ cd_lotfrac cd' = cd_lotfrac cd /\
+  cd_yearly cd' = cd_yearly cd /\ cd_balances cd' = cd_balances cd /\ cd_price cd' = cd_price cd /\
+  cd_ins cd' = cd_ins cd /\ cd_outs cd' = cd_outs cd /\ cd_intras cd' = cd_intras cd /\ cd_sold_pct cd' = cd_sold_pct cd /\
+  cd_all_gls cd' = take_until g_day D (cd_all_gls cd) /\
+  (exists rest, cd_all_gls cd = cd_all_gls cd' ++ rest).
+Proof. exact restrict_fields. Qed.
+
+(** ... and it is false for the code as it is when local dates are not monotone in time (finding F9): history [t9] of
+    Proofs/L4Examples.v, to-date 2020-12-31 -- the run with the to-date shows nothing, the run on the truncated history
+    reports the sale dated 2020-12-31 and its yearly line *)
+Theorem C09_to_date_refuted : exists period from_day D D' exs hos sched t cd cd',
+  time_sorted t /\ D <= D' /\
+  compute_tax period from_day D false exs hos sched t = Ok cd /\
+  compute_tax period from_day D' false exs hos sched (trunc_txs D t) = Ok cd' /\
+  cd_gls cd = [] /\ length (cd_gls cd') = 1%nat /\ cd_outs cd = [] /\ length (cd_outs cd') = 1%nat /\ cd_yearly cd = [] /\ length (cd_yearly cd') = 1%nat.
+Proof. exact c09_to_date_refuted. Qed.
+
+(** * "adding transactions dated after a time T never changes anything computed for taxable events at or before T"
+    [extends_after T t t2]: [t2] is [t] plus transactions that all happen after the instant [T], everything of [t] happens at
+    or before [T].  Pairing and amounts: the matcher's fractions of [t] are an initial segment of those of [t2]
+    (C09_prefix_stable at the level of the transaction sets); a history that fails keeps failing. *)
+Theorem C09_earlier_pairing_unchanged : forall T sched t t2 evs evs2,
+  extends_after T t t2 -> taxable_events t = Ok evs -> taxable_events t2 = Ok evs2 ->
+  wf (t_ins t) sched (map event_of evs) -> wf (t_ins t2) sched (map event_of evs2) ->
+  match fractions_of gen_always_repush sched t with
+  | Ok fs1 => forall fs2, fractions_of gen_always_repush sched t2 = Ok fs2 ->
+                exists fsX, fs2 = fs1 ++ fsX /\ forall f, In f fsX -> exists x, In x evs2 /\ T < t_us x /\ t_row x = f_ev f
+  | Err e => fractions_of gen_always_repush sched t2 = Err e
+  end.
+Proof. exact fractions_ext. Qed.
+
+(** proceeds, cost bases, gains, long/short flags: the detail table of the earlier run is an initial segment of the later
+    run's -- the same records [g] (event, lot, amount) at the same positions -- and [g_proceeds g], [g_cost g], [g_gain g],
+    [g_long period g] are functions of the record alone; the added records belong to added events *)
+Theorem C09_detail_table_unchanged : forall T sched t t2 evs evs2,
+  extends_after T t t2 -> taxable_events t = Ok evs -> taxable_events t2 = Ok evs2 ->
+  wf (t_ins t) sched (map event_of evs) -> wf (t_ins t2) sched (map event_of evs2) ->
+  forall fs1 fs2 gls1 gls2,
+  fractions_of gen_always_repush sched t = Ok fs1 -> fractions_of gen_always_repush sched t2 = Ok fs2 ->
+  all_fractions t fs1 = Some gls1 -> all_fractions t2 fs2 = Some gls2 ->
+  exists ext, gls2 = gls1 ++ ext /\ forall g, In g ext -> In (g_ev g) evs2 /\ ~ In (g_ev g) evs /\ T < t_us (g_ev g).
+Proof. exact detail_table_ext. Qed.
+
+(** "the yearly totals of closed years": the lines of the years <= Y are the same for two detail tables that agree on the
+    fractions of those years (from C06_line_is_sum: a line is the left-to-right sum over the fractions with its key) *)
+Theorem C09_closed_years : forall period Y to1 to2 fy gls1 gls2 yl1 yl2,
+  yearly_list period to1 fy gls1 = Ok yl1 -> yearly_list period to2 fy gls2 = Ok yl2 ->
+  filter (fun g => g_year g <=? Y) (take_until g_day to1 gls1) = filter (fun g => g_year g <=? Y) (take_until g_day to2 gls2) ->
+  filter (fun L => y_year L <=? Y) yl1 = filter (fun L => y_year L <=? Y) yl2.
+Proof. exact yearly_closed_years. Qed.
+
+(** all of it for two runs of the whole computation (same options): every earlier fraction with all its figures, the running
+    sums, and the yearly lines of every year Y that the added events do not touch *)
+Theorem C09_later_transactions_change_nothing : forall T period from_day to_day allow allow2 exs hos sched t t2 evs evs2 cd cd2,
+  extends_after T t t2 -> taxable_events t = Ok evs -> taxable_events t2 = Ok evs2 ->
+  wf (t_ins t) sched (map event_of evs) -> wf (t_ins t2) sched (map event_of evs2) ->
+  compute_tax period from_day to_day allow exs hos sched t = Ok cd ->
+  compute_tax period from_day to_day allow2 exs hos sched t2 = Ok cd2 ->
+  exists ext, cd_all_gls cd2 = cd_all_gls cd ++ ext /\
+    (forall g, In g ext -> In (g_ev g) evs2 /\ ~ In (g_ev g) evs /\ T < t_us (g_ev g)) /\
+    (exists rest, cd_gl_running cd2 = cd_gl_running cd ++ rest) /\
+    forall Y, (forall g, In g ext -> Y < g_year g) ->
+      filter (fun L => y_year L <=? Y) (cd_yearly cd) = filter (fun L => y_year L <=? Y) (cd_yearly cd2).
+Proof. exact later_transactions_change_nothing. Qed.
+
+(** Non-vacuity (Proofs/C09Examples.v, history A of Proofs/L4Examples.v): [to_date_instance] instantiates
+    C09_to_date_equals_truncated_history_end_to_end (to-date 2020-08-26 vs the history without the 2021 sale; [wf_A], [wf_A'],
+    [tA_time_sorted], [tA_dates_monotone] discharge the hypotheses; [to_date_cut]: the cut removes a fraction);
+    [extension_instance] instantiates C09_later_transactions_change_nothing ([tA_extends_tA']); [extension_closed_year]: the four
+    2020 lines are identical, the later run has a fifth line; [t9_not_monotone]: the F9 witness violates [dates_monotone]. *)
+
 Print Assumptions C09_prefix_stable.
+Print Assumptions C09_to_date_equals_truncated_history.
+Print Assumptions C09_to_date_equals_truncated_history_end_to_end.
+Print Assumptions C09_truncated_history_wellformed.
+Print Assumptions C09_truncated_matching.
+Print Assumptions C09_reported_fields_untouched.
+Print Assumptions C09_to_date_refuted.
+Print Assumptions C09_earlier_pairing_unchanged.
+Print Assumptions C09_detail_table_unchanged.
+Print Assumptions C09_closed_years.
+Print Assumptions C09_later_transactions_change_nothing.
